@@ -46,6 +46,27 @@ func overlayFiles(verifDir string) (map[string][]byte, []string, error) {
 		if !d.IsDir() {
 			continue
 		}
+		if d.Name() == "shim" {
+			// harness/shim/<pkg path with __ for />/*.go are added to that package of /repo
+			subs, _ := os.ReadDir(filepath.Join(root, "shim"))
+			for _, sd := range subs {
+				if !sd.IsDir() {
+					continue
+				}
+				files, _ := os.ReadDir(filepath.Join(root, "shim", sd.Name()))
+				for _, f := range files {
+					if !strings.HasSuffix(f.Name(), ".go") {
+						continue
+					}
+					b, err := os.ReadFile(filepath.Join(root, "shim", sd.Name(), f.Name()))
+					if err != nil {
+						return nil, nil, err
+					}
+					ov[filepath.Join(repoDir, strings.ReplaceAll(sd.Name(), "__", "/"), f.Name())] = b
+				}
+			}
+			continue
+		}
 		files, _ := os.ReadDir(filepath.Join(root, d.Name()))
 		n := 0
 		for _, f := range files {
